@@ -7,13 +7,14 @@ package forwarder
 // connection loop (http.ReadRequest, scheme fix-up, modifier stack, upgrade handling) runs over scripted request
 // bytes; the next hop is a recording RoundTripper.
 //
-//vf:assume C01: header lists of <=2 (quick) / <=3 (thorough) fields drawn from a 26-entry pool of names (end-to-end, hop-by-hop, Connection with nominations, Via, X-Forwarded-*, User-Agent, Authorization) with symbolic 2-byte printable values where the value is free; methods GET/POST; absolute- and origin-form targets with an escaped query; HTTP/1.0 and 1.1; bodies: none / Content-Length / chunked in 1 or 2 chunks (3 symbolic bytes); first or second request of a keep-alive connection
+//vf:assume C01: header lists of <=2 (quick) / <=3 (thorough) fields drawn from a 26-entry pool of names (end-to-end, hop-by-hop, Connection with nominations, Via, X-Forwarded-*, User-Agent, Authorization) with symbolic 2-byte printable values where the value is free; methods GET/POST; absolute- and origin-form targets with an escaped query; HTTP/1.0 and 1.1; bodies: none / Content-Length / chunked in 1 or 2 chunks (3 symbolic bytes); first or second request of a keep-alive connection; directly or inside an intercepted (MITM) tunnel whose content is plaintext HTTP (the TLS handshake of a real interception and the upstream-proxy transport are outside)
 //vf:assume C01: the next hop is a recording RoundTripper: what http.Transport does afterwards (Accept-Encoding: gzip, serialisation, connection reuse) and bodies near the 4 KiB / 32 KiB buffer sizes are outside
 
 import (
 	"strings"
 
 	"github.com/saucelabs/forwarder/internal/martian"
+	"github.com/saucelabs/forwarder/internal/martian/mitm"
 	"github.com/saucelabs/forwarder/internal/vfrt"
 )
 
@@ -75,7 +76,7 @@ func vfValues(sent []vfSent, name string) []string {
 	return vs
 }
 
-//vf:harness property=C01 nopanic reach=c01-first,c01-second,c01-body-cl,c01-body-chunked,c01-origin-form,c01-upgrade steps=8000000
+//vf:harness property=C01 nopanic reach=c01-first,c01-second,c01-body-cl,c01-body-chunked,c01-origin-form,c01-upgrade,c01-inside-mitm steps=8000000
 func vfH_C01_pipe() {
 	cfg := HTTPProxyConfig{}
 	cfg.Name = "fw"
@@ -104,15 +105,20 @@ func vfH_C01_pipe() {
 		}
 	}
 	// request shape: the thorough tier takes the full product, the quick tier a covering set of 8 combinations
-	bodyKind, chunks2, http10, originForm, secondReq := 0, false, false, false, false
+	bodyKind, chunks2, http10, originForm, secondReq, insideMITM := 0, false, false, false, false, false
 	if vfrt.Thorough() {
+		insideMITM = vfrt.Choice("inside-mitm", 2) == 1
 		bodyKind = vfrt.Choice("body", 4)
 		chunks2 = bodyKind >= 2 && vfrt.Choice("chunks", 2) == 1
 		http10 = vfrt.Choice("http10", 2) == 1
 		originForm = vfrt.Choice("origin-form", 2) == 1
 		secondReq = vfrt.Choice("second-on-connection", 2) == 1
 	} else {
-		switch vfrt.Choice("shape", 8) {
+		switch vfrt.Choice("shape", 10) {
+		case 8:
+			insideMITM, originForm = true, true
+		case 9:
+			insideMITM, originForm, bodyKind, secondReq = true, true, 2, true
 		case 0:
 		case 1:
 			bodyKind, secondReq = 1, true
@@ -174,6 +180,12 @@ func vfH_C01_pipe() {
 		vfrt.Reach("c01-second")
 	} else {
 		vfrt.Reach("c01-first")
+	}
+	if insideMITM {
+		// the request travels inside an intercepted tunnel (plaintext inside, so no TLS handshake is involved)
+		vfrt.Reach("c01-inside-mitm")
+		hp.proxy.MITMConfig = &mitm.Config{}
+		wire = "CONNECT example.com:80 HTTP/1.1\r\nHost: example.com:80\r\n\r\n" + wire
 	}
 	conn := martian.NewVfConn([]byte(wire))
 	martian.VfServeConn(hp.proxy, conn)
